@@ -45,21 +45,40 @@ Statement (properties.jsonl), split into the parts below:
      holding the messages and states of several sessions (same or different
      curves), a HISTORY = any interleaving of the sessions' round steps, every
      input of every step consumed in memory or through bytes.
-       `C18_hist_frame`: a step of one session (and any history without steps
-         of session j) leaves every slot of every other session (of j) as it
-         was; `C18_hist_isolation`: the state of session j after ANY history is
-         the state its own steps produce alone (induction over the schedule).
+     Steps may FAIL for reasons outside the session ("malformed bytes are
+     rejected with an error", and every other session -- and the failed one,
+     on a retry -- must still be correct): an event carries an optional
+     disturbance (`Dist`: the round's random source fails at a byte offset, the
+     message arrives cut / extended, the message or state of another session is
+     fed to the round); `Proc.stepD`: a step that does not succeed leaves the
+     whole process state as it was.
+       `C18_hist_frame`: a step of one session, disturbed or not (and any
+         history without steps of session j), leaves every slot of every other
+         session (of j) as it was; a step that does not succeed leaves the
+         WHOLE process as it was.
+       `C18_hist_failures_erased`: every history ends in the state of the
+         history of its successful events; when the disturbed events fail
+         (`Proc.DistFail`) that is the failure-free history of the undisturbed
+         events (induction over the schedule).
+       `C18_hist_isolation`: the state of session j after ANY such history is
+         the state its own undisturbed steps produce alone.
        `C18_hist_complete_session`: (any round functions) a session whose own
-         steps are round 1, 2, 3 and then round 4 any positive number of times
-         ends, inside every history, with exactly the values of its isolated
-         run in every slot.
-       `C18_hist_correct_partial`: the same for the sha2pc rounds: in every
-         history, every complete session's result is the embedded circuit's
-         function of ITS inputs (PARTIAL in the same sense as (E)).
+         undisturbed steps are round 1, 2, 3 and then round 4 any positive
+         number of times ends, inside every history, whatever failed in
+         between (its own rounds included: retry), with exactly the values of
+         its isolated run in every slot.
+       `C18_hist_faults_rejected`: for the sha2pc rounds a failing random
+         source and a message cut or extended in transit fail in EVERY state
+         (so `Proc.DistFail` holds for every history with these disturbances);
+         a foreign message / state fails when the session ids differ.
+       `C18_hist_correct_partial`: `C18_hist_complete_session` for the sha2pc
+         rounds: in every history with failing steps, every complete session's
+         result is the embedded circuit's function of ITS inputs (PARTIAL in
+         the same sense as (E)).
      The real process is tied to this model by the `hist` correspondence: the
-     whole process state (deep hash of every live message / session object)
-     after every step of a history executed on the real code equals
-     `Proc.run` of the model on the same schedule.
+     status of every step and the whole process state (deep hash of every live
+     message / session object) after every step of a history executed on the
+     real code equal `Proc.runD` of the model on the same schedule.
  (E) "the four-round protocol makes the evaluator output SHA-256(a xor b)" —
      `C18_sha2pc_correct_given_circuit_partial`: the evaluator outputs the
      embedded circuit's function of (a, b), for every group, KDF, hash,
@@ -327,59 +346,105 @@ theorem C18_sha2pc_correct_given_circuit_partial {G : Type} (P : Params G) (a b 
       round4 P es m3 = .ok (bitsToBytes (P.circ.compute (bytesToBits a ++ bytesToBits b))) :=
   correct_given_circuit P a b aS sid scalars key r0 inl hwf hnin hnout hod ha hb hA hI hP
 
-/-! ## (F) histories: several sessions in one process -/
+/-! ## (F) histories: several sessions in one process, steps that FAIL -/
 
-/-- FRAME.  A step of session `e.1` leaves all slots of every other session
-unchanged; a whole history in which session `j` does not step leaves all slots
-of session `j` unchanged: no later round, of whichever session, changes a
-message or session state the process already holds.  Any round functions. -/
+/-- FRAME.  A step of session `e.sess` -- undisturbed or run with a failing
+random source, a mutated or a foreign message -- leaves all slots of every
+other session unchanged; a whole history in which session `j` does not step
+leaves all slots of session `j` unchanged; a step that does NOT SUCCEED
+(error, crash, missing input) leaves the WHOLE process unchanged, the session
+that failed included: it can be retried.  Any round functions. -/
 theorem C18_hist_frame {T : Ty} (cfg : Cfg T) :
-    (∀ (st : Proc T) (e : Nat × Act) (j : Nat), j ≠ e.1 → Proc.step cfg st e j = st j) ∧
-    (∀ (st : Proc T) (sched : List (Nat × Act)) (j : Nat), (∀ e ∈ sched, e.1 ≠ j) → Proc.run cfg st sched j = st j) :=
-  ⟨fun st e j h => Proc.step_other cfg st e j h,
-   fun st sched j h => by rw [Proc.run_proj, proj_nil_of_absent j sched h]; rfl⟩
+    (∀ (st : Proc T) (e : Ev) (j : Nat), j ≠ e.sess → Proc.stepD cfg st e j = st j) ∧
+    (∀ (st : Proc T) (sched : List Ev) (j : Nat), (∀ e ∈ sched, e.sess ≠ j) → Proc.runD cfg st sched j = st j) ∧
+    (∀ (st : Proc T) (e : Ev), Proc.okAt cfg st e = false → Proc.stepD cfg st e = st) :=
+  ⟨fun st e j h => Proc.stepD_other cfg st e j h,
+   fun st sched j h => Proc.runD_frame cfg sched j st h,
+   fun st e h => Proc.stepD_failed cfg st e h⟩
 
-/-- ISOLATION.  After every history (every schedule, every number of sessions)
-the state of session `j` is what its own steps, in their order, produce from
-its own initial state. -/
-theorem C18_hist_isolation {T : Ty} (cfg : Cfg T) (st : Proc T) (sched : List (Nat × Act)) (j : Nat) :
-    Proc.run cfg st sched j = (st j).run (cfg j) (proj j sched) :=
-  Proc.run_proj cfg sched st j
+/-- FAILURES ARE ERASED.  Every history (any schedule, any disturbances, any
+round functions) ends in the state of the history of its SUCCESSFUL events;
+and when every disturbed event fails where it runs (`Proc.DistFail`) that is
+the failure-free history of the undisturbed events.  Induction over the
+schedule. -/
+theorem C18_hist_failures_erased {T : Ty} (cfg : Cfg T) (st : Proc T) (sched : List Ev) :
+    Proc.runD cfg st sched = Proc.runD cfg st (Proc.effective cfg st sched) ∧
+    (Proc.DistFail cfg st sched → Proc.runD cfg st sched = Proc.run cfg st (cleanSched sched)) :=
+  ⟨Proc.runD_effective cfg sched st, Proc.runD_erase cfg sched st⟩
 
-/-- A complete session inside ANY history: if the steps of session `j` in the
-schedule are round 1, round 2, round 3 and then round 4 one or more times —
-whatever the consumption modes, whatever the other sessions do in between,
-whatever the process held before — session `j` ends with exactly the values
-of its isolated run (`Rounds.Sound`) in every slot. -/
-theorem C18_hist_complete_session {T : Ty} (cfg : Cfg T) (st : Proc T) (sched : List (Nat × Act)) (j : Nat)
+/-- ISOLATION.  After every history with failing steps (every schedule, every
+number of sessions, failures of whichever session at whichever point) the
+state of session `j` is what its own UNDISTURBED steps, in their order,
+produce from its own initial state: neither a step of another session nor a
+failed step of any session contributes. -/
+theorem C18_hist_isolation {T : Ty} (cfg : Cfg T) (st : Proc T) (sched : List Ev) (j : Nat)
+    (hf : Proc.DistFail cfg st sched) :
+    Proc.runD cfg st sched j = (st j).run (cfg j) (proj j (cleanSched sched)) := by
+  rw [Proc.runD_erase cfg sched st hf]
+  exact Proc.run_proj cfg (cleanSched sched) st j
+
+/-- A complete session inside ANY history with failures: if the undisturbed
+steps of session `j` are round 1, round 2, round 3 and then round 4 one or
+more times -- whatever the consumption modes, whatever the other sessions do in
+between, however many steps (of `j` too: a failed round is retried) fail and
+wherever, whatever the process held before -- session `j` ends with exactly the
+values of its isolated run (`Rounds.Sound`) in every slot. -/
+theorem C18_hist_complete_session {T : Ty} (cfg : Cfg T) (st : Proc T) (sched : List Ev) (j : Nat)
+    (hf : Proc.DistFail cfg st sched)
     (m2 : T.M2) (es : T.ES) (m3 : T.M3) (d : T.D) (hs : (cfg j).Sound m2 es m3 d)
     (x y z : Bool) (e4s : List Act) (hall : ∀ a ∈ e4s, a.isE4 = true) (hne : e4s ≠ [])
-    (hproj : proj j sched = .g1 :: .e2 x :: .g3 y z :: e4s) :
-    Proc.run cfg st sched j =
+    (hproj : proj j (cleanSched sched) = .g1 :: .e2 x :: .g3 y z :: e4s) :
+    Proc.runD cfg st sched j =
       { m1 := some (cfg j).r1.1, gs := some (cfg j).r1.2, m2 := some m2, es := some es, m3 := some m3, out := some d } := by
-  rw [Proc.run_proj, hproj]
+  rw [C18_hist_isolation cfg st sched j hf, hproj]
   exact Sess.run_complete (cfg j) m2 es m3 d hs (st j) x y z e4s hall hne
+
+/-- WHICH steps fail, for the sha2pc rounds.  (1) In EVERY process state a
+round given a failing random source and a round given a message whose bytes
+were cut or extended in transit do not succeed (the decoders accept the
+documented length only), so every history whose disturbances are of these two
+kinds satisfies `Proc.DistFail`.  (2) The message (round 3, round 4) or the
+evaluator state (round 4) of ANOTHER session of the process is answered with an
+error as soon as the session ids differ. -/
+theorem C18_hist_faults_rejected (cfg : Nat → SessCfg) (hc : ∀ i, (cfg i).P.curve.WF)
+    (hp : ∀ i, (cfg i).P.curve.ParitySound) :
+    (∀ (st : Proc sha2pcTy) (sched : List Ev), (∀ e ∈ sched, e.unconditional = true) →
+        Proc.DistFail (fun i => (cfg i).rounds) st sched) ∧
+    (∀ (st : Proc sha2pcTy) (i src : Nat) (gs : GarblerSession) (m2 : Round2), (st i).gs = some gs →
+        (st src).m2 = some m2 → m2.sid ≠ gs.sid →
+        Proc.stepResD (fun i => (cfg i).rounds) st ⟨i, .g3 false false, some (.foreignMsg src)⟩ = some .error) ∧
+    (∀ (st : Proc sha2pcTy) (i src : Nat) (es : EvaluatorSession) (m3 : Round3), m3.sid ≠ es.sid →
+        ((st i).es = some es → (st src).m3 = some m3 →
+          Proc.stepResD (fun i => (cfg i).rounds) st ⟨i, .e4 false false, some (.foreignMsg src)⟩ = some .error) ∧
+        ((st src).es = some es → (st i).m3 = some m3 →
+          Proc.stepResD (fun i => (cfg i).rounds) st ⟨i, .e4 false false, some (.foreignState src)⟩ = some .error)) :=
+  ⟨fun st sched h => SessCfg.distFail_of_unconditional cfg hc hp sched st h,
+   fun st i src gs m2 hgs hm hsid => (cfg i).foreign_g3_fails st (st i) src gs m2 hgs hm hsid,
+   fun st i src es m3 hsid => (cfg i).foreign_e4_fails st (st i) src es m3 hsid⟩
 
 /-- FULL STATEMENT (not proved): `... .out = some (SHA-256 (a_j xor b_j))`.
 PROVED: in every history of a process serving any number of sessions (each
-with its own curve group, inputs and randomness), every session `j` that
-satisfies `SessCfg.Good` and whose own steps are rounds 1, 2, 3 and then round
-4 one or more times ends with the round messages and session states of its
-isolated run and with the embedded circuit's function of its own inputs as
-result.  MISSING: as in `C18_sha2pc_correct_given_circuit_partial`. -/
-theorem C18_hist_correct_partial (cfg : Nat → SessCfg) (st : Proc sha2pcTy) (sched : List (Nat × Act)) (j : Nat)
+with its own curve group, inputs and randomness) in which steps may FAIL
+(failing random source, mutated message, foreign message: every disturbed
+event fails where it runs), every session `j` that satisfies `SessCfg.Good`
+and whose own undisturbed steps are rounds 1, 2, 3 and then round 4 one or
+more times ends with the round messages and session states of its isolated run
+and with the embedded circuit's function of its own inputs as result.
+MISSING: as in `C18_sha2pc_correct_given_circuit_partial`. -/
+theorem C18_hist_correct_partial (cfg : Nat → SessCfg) (st : Proc sha2pcTy) (sched : List Ev) (j : Nat)
+    (hf : Proc.DistFail (fun i => (cfg i).rounds) st sched)
     (hg : (cfg j).Good) (x y z : Bool) (e4s : List Act) (hall : ∀ a ∈ e4s, a.isE4 = true) (hne : e4s ≠ [])
-    (hproj : proj j sched = .g1 :: .e2 x :: .g3 y z :: e4s) :
+    (hproj : proj j (cleanSched sched) = .g1 :: .e2 x :: .g3 y z :: e4s) :
     ∃ m2 es m3,
       round2 (cfg j).P (round1 (cfg j).P (cfg j).aS (cfg j).sid).1 (cfg j).b (cfg j).scalars = .ok (m2, es) ∧
       round3 (cfg j).P (round1 (cfg j).P (cfg j).aS (cfg j).sid).2 (cfg j).a m2 (cfg j).key (cfg j).r0 (cfg j).inl = .ok m3 ∧
-      Proc.run (fun i => (cfg i).rounds) st sched j =
+      Proc.runD (fun i => (cfg i).rounds) st sched j =
         { m1 := some (round1 (cfg j).P (cfg j).aS (cfg j).sid).1, gs := some (round1 (cfg j).P (cfg j).aS (cfg j).sid).2,
           m2 := some m2, es := some es, m3 := some m3,
           out := some (bitsToBytes ((cfg j).P.circ.compute (bytesToBits (cfg j).a ++ bytesToBits (cfg j).b))) } := by
   obtain ⟨m2, es, m3, hs⟩ := (cfg j).rounds_sound hg
   exact ⟨m2, es, m3, hs.h2, hs.h3,
-    C18_hist_complete_session (fun i => (cfg i).rounds) st sched j m2 es m3 _ hs x y z e4s hall hne hproj⟩
+    C18_hist_complete_session (fun i => (cfg i).rounds) st sched j hf m2 es m3 _ hs x y z e4s hall hne hproj⟩
 
 /-! ## Non-vacuity -/
 
@@ -475,8 +540,15 @@ example (a b : Bytes) (ha : a.length = 32) (hb : b.length = 32) (key : Bytes) (r
 /-! ### histories -/
 
 /-- A toy curve description whose decompression returns the ordinate 0 of the
-toy group's points `(k, 0)`. -/
-def toyCurveZ (name : Bytes) (bl : Nat) : Curve := { name := name, byteLen := bl, decompress := fun _ _ => some 0 }
+toy group's points `(k, 0)` for the even parity (and 1 for the odd one). -/
+def toyCurveZ (name : Bytes) (bl : Nat) : Curve :=
+  { name := name, byteLen := bl, decompress := fun _ odd => some (if odd then 1 else 0) }
+
+theorem toyCurveZ_parity (name : Bytes) (bl : Nat) : (toyCurveZ name bl).ParitySound := by
+  intro x odd y h
+  simp only [toyCurveZ, Option.some.injEq] at h
+  subst h
+  cases odd <;> decide
 
 /-- A toy session: "curve" `name`/`bl`, inputs `a`, `b`, sender scalar `aS`, session id `sid`. -/
 def toySess (name : Bytes) (bl : Nat) (a b : Bytes) (aS sid : Nat) : SessCfg :=
@@ -533,7 +605,7 @@ theorem toySess_good (name : Bytes) (bl : Nat) (a b : Bytes) (aS sid : Nat) (hn0
     · intro p hp
       simp only [List.mem_map] at hp
       obtain ⟨i, _, rfl⟩ := hp
-      rfl
+      simp [toySess, toyCurveZ, toyCrypto, yOdd]
     · intro v hv
       simp only [List.mem_map] at hv
       obtain ⟨i, _, rfl⟩ := hv
@@ -551,52 +623,102 @@ theorem toyCfg_good : ∀ j, (toyCfg j).Good
   | 1 => toySess_good _ _ _ _ _ _ (by decide) (by decide) (by decide) (by decide) rfl rfl (by decide) (by decide)
   | _ + 2 => toySess_good _ _ _ _ _ _ (by decide) (by decide) (by decide) (by decide) rfl rfl (by decide) (by decide)
 
+theorem toyCfg_curve (j : Nat) : (toyCfg j).P.curve.WF := (toyCfg_good j).curve
+theorem toyCfg_parity : ∀ j, (toyCfg j).P.curve.ParitySound
+  | 0 => toyCurveZ_parity _ _
+  | 1 => toyCurveZ_parity _ _
+  | _ + 2 => toyCurveZ_parity _ _
+
 /-- A history of the three sessions in the shape of a batching garbler: rounds
 1-2 of every session, then all three round 3, then the evaluators in reverse
 order, session 0 consuming its round-3 message (produced BEFORE the round 3 of
-sessions 1 and 2) in memory and, later again, through bytes. -/
-def toySched : List (Nat × Act) :=
-  [(0, .g1), (1, .g1), (0, .e2 false), (2, .g1), (1, .e2 true), (2, .e2 false),
-   (0, .g3 false true), (1, .g3 true false), (2, .g3 false false),
-   (2, .e4 true true), (1, .e4 false true), (0, .e4 false false), (0, .e4 true true), (1, .e4 false false)]
+sessions 1 and 2) in memory and, later again, through bytes -- with FAILING
+steps in between: the random source fails in round 1 of session 1 (retried), in
+round 2 of session 0, in round 3 of session 0 while the input labels are drawn
+(byte 128 of 8240; sessions 1 and 2 garble next, session 0 retries last), the
+round-2 message of session 1 arrives one byte short, the round-3 message of
+session 2 with an extra byte, and round 3 of session 2 is run once more with a
+failing source after its message was produced. -/
+def toySched : List Ev :=
+  [⟨0, .g1, none⟩, ⟨1, .g1, some (.rng 3 0)⟩, ⟨1, .g1, none⟩, ⟨0, .e2 false, some (.rng 40 2)⟩, ⟨0, .e2 false, none⟩,
+   ⟨2, .g1, none⟩, ⟨1, .e2 true, none⟩, ⟨2, .e2 false, none⟩,
+   ⟨0, .g3 false true, some (.rng 128 1)⟩, ⟨1, .g3 true true, some (.malformed 0)⟩,
+   ⟨1, .g3 true false, none⟩, ⟨2, .g3 false false, none⟩, ⟨0, .g3 false true, none⟩,
+   ⟨2, .g3 true true, some (.rng 8239 0)⟩, ⟨2, .e4 false true, some (.malformed 1)⟩,
+   ⟨2, .e4 true true, none⟩, ⟨1, .e4 false true, none⟩, ⟨0, .e4 false false, none⟩, ⟨0, .e4 true true, none⟩,
+   ⟨1, .e4 false false, none⟩]
 
-example : proj 0 toySched = [.g1, .e2 false, .g3 false true, .e4 false false, .e4 true true] := by decide
-example : proj 1 toySched = [.g1, .e2 true, .g3 true false, .e4 false true, .e4 false false] := by decide
-example : proj 2 toySched = [.g1, .e2 false, .g3 false false, .e4 true true] := by decide
+example : proj 0 (cleanSched toySched) = [.g1, .e2 false, .g3 false true, .e4 false false, .e4 true true] := by decide
+example : proj 1 (cleanSched toySched) = [.g1, .e2 true, .g3 true false, .e4 false true, .e4 false false] := by decide
+example : proj 2 (cleanSched toySched) = [.g1, .e2 false, .g3 false false, .e4 true true] := by decide
+
+/-- `Proc.DistFail` holds for the toy history from EVERY process state (the
+hypotheses of `C18_hist_faults_rejected` are satisfiable). -/
+theorem toySched_distFail (st : Proc sha2pcTy) : Proc.DistFail (fun i => (toyCfg i).rounds) st toySched :=
+  (C18_hist_faults_rejected toyCfg toyCfg_curve toyCfg_parity).1 st toySched (by decide)
 
 /-- The hypotheses of the history theorem are satisfiable, for every session of
-the toy history, from ANY earlier process state; its conclusion for session 0:
-the result is the toy circuit's function (bitwise xor) of session 0's inputs. -/
+the toy history (failing steps included), from ANY earlier process state; its
+conclusion for session 0: the result is the toy circuit's function (bitwise
+xor) of session 0's inputs. -/
 example (st : Proc sha2pcTy) :
-    (Proc.run (fun i => (toyCfg i).rounds) st toySched 0).out =
+    (Proc.runD (fun i => (toyCfg i).rounds) st toySched 0).out =
       some (bitsToBytes (toyCircuit.compute (bytesToBits (List.replicate 32 0x0f) ++ bytesToBits (List.replicate 32 0x35)))) := by
-  obtain ⟨m2, es, m3, _, _, h⟩ := C18_hist_correct_partial toyCfg st toySched 0 (toyCfg_good 0) false false true
-    [.e4 false false, .e4 true true] (by decide) (by decide) (by decide)
+  obtain ⟨m2, es, m3, _, _, h⟩ := C18_hist_correct_partial toyCfg st toySched 0 (toySched_distFail st) (toyCfg_good 0)
+    false false true [.e4 false false, .e4 true true] (by decide) (by decide) (by decide)
   rw [h]
   rfl
-example (st : Proc sha2pcTy) : ∃ d, (Proc.run (fun i => (toyCfg i).rounds) st toySched 1).out = some d := by
-  obtain ⟨m2, es, m3, _, _, h⟩ := C18_hist_correct_partial toyCfg st toySched 1 (toyCfg_good 1) true true false
-    [.e4 false true, .e4 false false] (by decide) (by decide) (by decide)
+example (st : Proc sha2pcTy) : ∃ d, (Proc.runD (fun i => (toyCfg i).rounds) st toySched 1).out = some d := by
+  obtain ⟨m2, es, m3, _, _, h⟩ := C18_hist_correct_partial toyCfg st toySched 1 (toySched_distFail st) (toyCfg_good 1)
+    true true false [.e4 false true, .e4 false false] (by decide) (by decide) (by decide)
   exact ⟨_, by rw [h]⟩
-example (st : Proc sha2pcTy) : ∃ d, (Proc.run (fun i => (toyCfg i).rounds) st toySched 2).out = some d := by
-  obtain ⟨m2, es, m3, _, _, h⟩ := C18_hist_correct_partial toyCfg st toySched 2 (toyCfg_good 2) false false false
-    [.e4 true true] (by decide) (by decide) (by decide)
+example (st : Proc sha2pcTy) : ∃ d, (Proc.runD (fun i => (toyCfg i).rounds) st toySched 2).out = some d := by
+  obtain ⟨m2, es, m3, _, _, h⟩ := C18_hist_correct_partial toyCfg st toySched 2 (toySched_distFail st) (toyCfg_good 2)
+    false false false [.e4 true true] (by decide) (by decide) (by decide)
   exact ⟨_, by rw [h]⟩
 
 /-- `Rounds.Sound` (hypothesis of `C18_hist_complete_session`) is satisfiable:
 the sha2pc rounds of a toy session. -/
 example : ∃ m2 es m3, (toyCfg 1).rounds.Sound (T := sha2pcTy) m2 es m3 (toyCfg 1).result :=
   (toyCfg 1).rounds_sound (toyCfg_good 1)
+example (st : Proc sha2pcTy) : ∃ d : Round2 × EvaluatorSession × Round3,
+    Proc.runD (fun i => (toyCfg i).rounds) st toySched 1 =
+      { m1 := some (toyCfg 1).rounds.r1.1, gs := some (toyCfg 1).rounds.r1.2, m2 := some d.1, es := some d.2.1,
+        m3 := some d.2.2, out := some (toyCfg 1).result } := by
+  obtain ⟨m2, es, m3, hs⟩ := (toyCfg 1).rounds_sound (toyCfg_good 1)
+  exact ⟨(m2, es, m3), C18_hist_complete_session (fun i => (toyCfg i).rounds) st toySched 1 (toySched_distFail st)
+    m2 es m3 _ hs true true false [.e4 false true, .e4 false false] (by decide) (by decide) (by decide)⟩
 
-/-- Frame / isolation on the toy history: after the first nine events session 2
-has not run round 4; nothing session 0 or 1 do afterwards changes its slots. -/
+/-- Frame / isolation on the toy history: after round 4 of session 2 nothing
+sessions 0 and 1 do afterwards changes its slots; a failed step changes
+nothing at all (here: the random source of session 0's round 3 fails inside
+the input labels); the state of session 2 is what its undisturbed steps give. -/
 example (st : Proc sha2pcTy) :
-    Proc.run (fun i => (toyCfg i).rounds) st [(1, .e4 false true), (0, .e4 false false), (0, .e4 true true)] 2 = st 2 :=
-  (C18_hist_frame _).2 st _ 2 (by decide)
+    Proc.runD (fun i => (toyCfg i).rounds) st
+      [⟨1, .e4 false true, none⟩, ⟨0, .g3 true true, some (.rng 99 0)⟩, ⟨0, .e4 true true, none⟩] 2 = st 2 :=
+  (C18_hist_frame _).2.1 st _ 2 (by decide)
 example (st : Proc sha2pcTy) :
-    Proc.run (fun i => (toyCfg i).rounds) st toySched 2 =
+    Proc.stepD (fun i => (toyCfg i).rounds) st ⟨0, .g3 false true, some (.rng 128 1)⟩ = st :=
+  (C18_hist_frame _).2.2 st _
+    (SessCfg.unconditional_fails toyCfg toyCfg_curve toyCfg_parity st _ (by decide) (by decide))
+example (st : Proc sha2pcTy) :
+    Proc.runD (fun i => (toyCfg i).rounds) st toySched 2 =
       (st 2).run (toyCfg 2).rounds [.g1, .e2 false, .g3 false false, .e4 true true] :=
-  C18_hist_isolation _ st toySched 2
+  C18_hist_isolation _ st toySched 2 (toySched_distFail st)
+example (st : Proc sha2pcTy) :
+    Proc.runD (fun i => (toyCfg i).rounds) st toySched =
+      Proc.run (fun i => (toyCfg i).rounds) st (cleanSched toySched) :=
+  (C18_hist_failures_erased _ st toySched).2 (toySched_distFail st)
+
+/-- Foreign messages: a process holding a garbler state (id 9) for session 0
+and a round-2 message of another session (id 1 ≠ 9) for session 1; round 3 of session 0 on that
+message is an error. -/
+example (st : Proc sha2pcTy) (h0 : (st 0).gs = some toyGS) (h1 : (st 1).m2 = some toyR2) :
+    Proc.stepResD (fun i => (toyCfg i).rounds) st ⟨0, .g3 false false, some (.foreignMsg 1)⟩ = some .error :=
+  (C18_hist_faults_rejected toyCfg toyCfg_curve toyCfg_parity).2.1 st 0 1 toyGS toyR2 h0 h1 (by decide)
+example (st : Proc sha2pcTy) (h0 : (st 0).es = some toyES) (h1 : (st 1).m3 = some toyR3) :
+    Proc.stepResD (fun i => (toyCfg i).rounds) st ⟨0, .e4 false false, some (.foreignMsg 1)⟩ = some .error :=
+  ((C18_hist_faults_rejected toyCfg toyCfg_curve toyCfg_parity).2.2 st 0 1 toyES toyR3 (by decide)).1 h0 h1
 
 /-- Off-curve coordinates exist in the toy group: `(1, 1)` is not a curve point. -/
 example : toyCrypto.ofPt ⟨1, 1⟩ = none ∧ (toyCrypto.ofPt ⟨1, 0⟩).isSome := by decide
